@@ -2,7 +2,9 @@ package main
 
 import (
 	"bufio"
+	"bytes"
 	"fmt"
+	"sort"
 	"strings"
 
 	"github.com/facebookincubator/dns/dnsrocks/dnsdata"
@@ -25,17 +27,337 @@ func newCodec(kind string, serial uint32) *dnsdata.Codec {
 	return c
 }
 
-func c09gen(g *gen, tier string, w *bufio.Writer) {
-	n := 6000
-	if tier == "thorough" {
-		n = 150000
+// ---------------------------------------------------------------------------------------------
+// generator
+
+var c09labels = []string{"a", "b", "www", "x-1", "_srv", "MiXed", "xn--0", "n1", "mail", "ns", "mx", "srv"}
+
+// escaped and raw odd labels: escaped separators, escaped star / dot / upper case, control bytes,
+// quote, backslash, invalid and valid UTF-8 (raw and octal), an escape that does not unquote
+var c09odd = []string{"a+b", "\\052", "a\\054b", "a\\072b", "sp\\040ace", "\\101b", "\\377", "\\303\\251", "\xc3\xa9", "\xe9",
+	"q\\042", "b\\\\s", "t\\011", "\\000", "a\\056b", "x\\177", "\\342\\202\\254", "\xf0\x9f\x98\x80", "\"", "a b", "a\\qb", "\\x41", "\\u00e9", "*"}
+
+func (g *gen) c09label() string {
+	if g.chance(1, 6) {
+		return g.pick(c09odd)
 	}
-	o := dataOpts{v6: true, odd: true, locs: true, maps: true}
+	return g.pick(c09labels)
+}
+
+// plain name: 0..4 labels, sometimes empty labels / trailing dot / root
+func (g *gen) c09name() string {
+	switch g.intn(24) {
+	case 0:
+		return ""
+	case 1:
+		return "."
+	case 2:
+		return g.pick([]string{"..", "a..b", "a.b.", "a.b..", "a...b.c"})
+	}
+	n := 1 + g.intn(4)
+	var ls []string
 	for i := 0; i < n; i++ {
+		ls = append(ls, g.c09label())
+	}
+	return strings.Join(ls, ".")
+}
+
+// owner name of a type that understands wildcards
+func (g *gen) c09wname() string {
+	n := g.c09name()
+	if strings.HasPrefix(n, ".") {
+		n = "a" + n
+	}
+	switch g.intn(8) {
+	case 0:
+		return "*." + n
+	case 1:
+		return g.pick([]string{"*.", "*", "*..", "\\052.a.b", "*.*.a", "\\052\\056a.b"})
+	}
+	return n
+}
+
+// server name (ns / mx / srv): avoids the confirmed defect class "fewer than two non-empty
+// labels after expansion" unless owner has a non-empty label and the name has no dot
+func (g *gen) c09server(owner string) string {
+	ownerHasLabel := strings.Trim(owner, ".") != ""
+	switch g.intn(6) {
+	case 0:
+		if ownerHasLabel {
+			return ""
+		}
+		return "a"
+	case 1:
+		return g.c09label() + "." + g.c09label() + "." + g.pick([]string{"", "net", "ex.com."})
+	case 2:
+		return g.pick([]string{".", "a.b", "a..b", "a.b.", "NS1.Ex.Com", "x.y.z.w"})
+	}
+	l := g.c09label()
+	if strings.Contains(l, "\\056") {
+		l = "a"
+	}
+	return l
+}
+
+func (g *gen) c09num(max uint64) string {
+	switch g.intn(9) {
+	case 0:
+		return ""
+	case 1:
+		return "0"
+	case 2:
+		return fmt.Sprint(max)
+	case 3:
+		return fmt.Sprint(max + 1)
+	case 4:
+		return g.pick([]string{"007", "12x", "+5", "-1", " 1", "1e3"})
+	case 5:
+		return fmt.Sprint(g.u64() % (max + 1))
+	}
+	return fmt.Sprint(g.intn(100000) % int(max+1))
+}
+
+func (g *gen) c09loc() string {
+	switch g.intn(8) {
+	case 0:
+		return "aa"
+	case 1:
+		return "\\000\\001"
+	case 2:
+		return "\\000\\000"
+	case 3:
+		return g.pick([]string{"a", "abc", "\\054\\072", "\\377\\376", "Zz", "\\0", "a\\qb"})
+	}
+	return ""
+}
+
+func (g *gen) c09lmap() string {
+	return g.pick([]string{"m1", "e1", "", "m", "\\001\\002", "toolong", "\\000\\000", "\\054\\072", "\\377a"})
+}
+
+func (g *gen) c09ip6() string {
+	h := func() string { return fmt.Sprintf("%x", g.intn(65536)) }
+	switch g.intn(14) {
+	case 0:
+		return "::"
+	case 1:
+		return "::1"
+	case 2:
+		return "1::"
+	case 3:
+		return "2001:db8::" + h()
+	case 4:
+		return "2001:DB8:0:0:1:0:0:" + h()
+	case 5:
+		return "2001:0db8:0000:0000:0000:0000:0000:0001"
+	case 6:
+		return h() + ":0:0:" + h() + ":0:0:0:" + h()
+	case 7:
+		return "1:0:0:2:0:0:3:4"
+	case 8:
+		return "0:0:1:0:0:0:1:0"
+	case 9:
+		return "1:2:3:4:5:6:7::"
+	case 10:
+		return "::2:3:4:5:6:7:8"
+	case 11:
+		return "64:ff9b::" + g.ip4()
+	case 12:
+		return "1:0:1:0:1:0:1:0"
+	}
+	var gs []string
+	for i := 0; i < 8; i++ {
+		if g.chance(1, 3) {
+			gs = append(gs, "0")
+		} else {
+			gs = append(gs, h())
+		}
+	}
+	return strings.Join(gs, ":")
+}
+
+func (g *gen) c09ip() string {
+	switch g.intn(10) {
+	case 0:
+		return ""
+	case 1:
+		return g.pick([]string{"bogus", "1.2.3", "01.2.3.4", "1.2.3.4.5", "256.1.1.1", "fe80::1%eth0", "1:2:3", ":::"})
+	case 2:
+		return "::ffff:" + g.ip4()
+	case 3:
+		return g.pick([]string{"::ffff:102:304", "0.0.0.0", "255.255.255.255", "0:0:0:0:0:ffff:a00:1"})
+	case 4, 5, 6:
+		return g.c09ip6()
+	}
+	return g.ip4()
+}
+
+// c09join: both separators on input, trailing empty fields dropped half of the time
+func (g *gen) c09join(prefix string, f []string) string {
+	sep := ","
+	if g.chance(1, 3) {
+		ok := true
+		for _, x := range f {
+			if strings.ContainsAny(x, ":,") {
+				ok = false
+			}
+		}
+		if ok {
+			sep = ":"
+		}
+	}
+	n := len(f)
+	if g.bool() {
+		for n > 1 && f[n-1] == "" {
+			n--
+		}
+	}
+	return prefix + strings.Join(f[:n], sep)
+}
+
+var c09txts = []string{"hello", "v=spf1\\040-all", "a\\072b\\054c", "", "q\\042uote", "\\000\\377\\200", "caf\xc3\xa9", "tab\\011nl\\012", "back\\\\slash", "a b \"c\"", "\\342\\202\\254", "\xff\xfe", "\\u20ac", "\\U0001f600"}
+
+var c09params = []string{"", "alpn=h2", "alpn=\"h2|h3\"", "port=443", "ipv4hint=1.2.3.4", "ipv4hint=1.2.3.4|5.6.7.8", "ipv6hint=2001:db8::1",
+	"ipv6hint=2001:db8::1|::1", "mandatory=alpn;alpn=h2", "alpn=h3;no-default-alpn", "port=8443;alpn=h2;ipv4hint=10.0.0.1", "ech=AAEC", "port=0", "bogus=1", "alpn="}
+
+// c09line: one line of type `t`; never in a confirmed defect class
+func (g *gen) c09line(t byte, serial uint32) string {
+	unused := g.pick([]string{"", "", "x"})
+	switch t {
+	case 'Z':
+		ser := g.c09num(4294967295)
+		if serial != 0 {
+			if v, ok := parseDec(ser); ok && v == 0 {
+				ser = "1"
+			}
+		}
+		return g.c09join("Z", []string{g.c09name(), g.c09name(), g.c09name(), ser, g.c09num(4294967295), g.c09num(4294967295), g.c09num(4294967295), g.c09num(4294967295), g.c09num(4294967295), unused, g.c09loc()})
+	case '.', '&':
+		o := g.c09name()
+		return g.c09join(string(t), []string{o, g.c09ip(), g.c09server(o), g.c09num(4294967295), unused, g.c09loc()})
+	case '+':
+		return g.c09join("+", []string{g.c09wname(), g.c09ip(), g.c09num(4294967295), unused, g.c09loc(), g.c09num(4294967295)})
+	case '=':
+		return g.c09join("=", []string{g.c09wname(), g.c09ip(), g.c09num(4294967295), unused, g.c09loc()})
+	case '@':
+		o := g.c09name()
+		return g.c09join("@", []string{o, g.c09ip(), g.c09server(o), g.c09num(4294967295), g.c09num(4294967295), unused, g.c09loc()})
+	case 'S':
+		o := g.c09name()
+		return g.c09join("S", []string{o, g.c09ip(), g.c09server(o), g.c09num(65535), g.c09num(65535), g.c09num(65535), g.c09num(4294967295), unused, g.c09loc()})
+	case 'C':
+		return g.c09join("C", []string{g.c09wname(), g.c09name(), g.c09num(4294967295), unused, g.c09loc()})
+	case '^':
+		return g.c09join("^", []string{g.c09name(), g.c09name(), g.c09num(4294967295), unused, g.c09loc()})
+	case '\'':
+		return g.c09join("'", []string{g.c09wname(), g.pick(c09txts), g.c09num(4294967295), unused, g.c09loc()})
+	case ':':
+		return g.c09join(":", []string{g.c09name(), g.pick([]string{"99", "257", "0", "65535", "65536", "70000", "", "16"}), g.pick(c09txts), g.c09num(4294967295), unused, g.c09loc()})
+	case 'M', '8':
+		n := g.c09name()
+		if strings.HasPrefix(n, ".") {
+			n = "a" + n
+		}
+		if g.chance(1, 4) {
+			n = "*." + n
+		}
+		return g.c09join(string(t), []string{n, g.c09lmap()})
+	case '%':
+		net := g.pick([]string{"10.0.0.0/8", "10.1.2.3/16", "1.2.3.4", "", "2001:db8::/32", "::/0", "0.0.0.0/0", "::ffff:1.2.3.0/120", "1.2.3.4/33", "bogus", "10.0.0.0/08",
+			"fe80::1%eth0/64", "::ffff:1.2.3.4/100", "::ffff:0:0/96", "::ffff:0:0/90", "2001:db8::1", "1.2.3.4/32", "1.2.3.4/0", "::1/128", "1:0:0:2::/64", "255.255.255.255/31", "ffff::/3"})
+		return g.c09join("%", []string{g.pick([]string{"aa", "\\000\\001", "", "abc", "\\377\\000"}), net, g.c09lmap()})
+	case '!':
+		f := []string{g.c09lmap(), g.c09ip()}
+		if g.chance(2, 3) {
+			f = append(f, g.pick([]string{"", "0", "8", "24", "32", "64", "128", "159", "160", "200", "255", "256", "x"}), g.pick([]string{"aa", "\\000\\001", "\\000\\000", "", "abc"}))
+		}
+		return g.c09join("!", f)
+	case 'B', 'H':
+		tgt := g.c09name()
+		if g.chance(1, 8) {
+			tgt = "*." + tgt
+		}
+		return g.c09join(string(t), []string{g.c09name(), tgt, g.c09num(4294967295), g.c09loc(), g.c09num(65535), g.pick(c09params)})
+	}
+	return "?"
+}
+
+func parseDec(s string) (uint64, bool) {
+	if s == "" {
+		return 0, false
+	}
+	var v uint64
+	for _, c := range []byte(s) {
+		if c < '0' || c > '9' {
+			return 0, false
+		}
+		v = v*10 + uint64(c-'0')
+		if v > 1<<40 {
+			return 0, false
+		}
+	}
+	return v, true
+}
+
+const c09types = "Z.&+=@SC^':M8%!BH"
+
+// data files for `prep`: the shared generator's files (valid zones, maps, subnets), extra subnet
+// lines, SOA lines with every optional field; never an explicit serial 0
+func (g *gen) c09file(serial uint32) []string {
+	df := g.genDataFile(dataOpts{v6: true, odd: true, locs: true, maps: true, maxZone: 3})
+	lines := append([]string{}, df.lines...)
+	for i := g.intn(4); i > 0; i-- {
+		lines = append(lines, g.c09line('Z', serial))
+	}
+	for i := g.intn(6); i > 0; i-- {
+		lo := g.pick([]string{"aa", "bb", "\\000\\001", "\\377\\376"})
+		net := g.pick([]string{"10.0.0.0/8", "10.1.2.3/16", "1.2.3.4", "", "2001:db8::/32", "::/0", "0.0.0.0/0", "::ffff:1.2.3.0/120", "10.128.0.0/9", "10.0.0.0/7",
+			"2001:db8:1::/48", "2001:db8::1", "255.255.255.255", "ffff:ffff:ffff:ffff:ffff:ffff:ffff:ffff", "128.0.0.0/1", "8000::/1", "0.0.0.0/1", "::/1", "192.168.1.0/24"})
+		lines = append(lines, fmt.Sprintf("%%%s,%s,%s", lo, net, g.pick([]string{"m1", "e1", "\\000\\000", "m"})))
+	}
+	var out []string
+	for _, l := range lines {
+		t := strings.TrimLeft(l, " ")
+		if len(t) == 1 { // a one-character line: confirmed defect class (preprocessing decodes it, the parser skips it)
+			continue
+		}
+		out = append(out, l)
+	}
+	g.shuffle(out)
+	return out
+}
+
+func c09gen(g *gen, tier string, w *bufio.Writer) {
+	nconv, nnorm, nprep := 3000, 6000, 250
+	if tier == "thorough" {
+		nconv, nnorm, nprep = 100000, 150000, 5000
+	}
+	fmt.Fprintf(w, "isprint %s\n", isPrintRanges())
+	o := dataOpts{v6: true, odd: true, locs: true, maps: true}
+	for i := 0; i < nconv; i++ {
 		kind := g.pick([]string{"cdb", "v1", "v2"})
 		fmt.Fprintf(w, "conv %s %d %s\n", kind, 1700000000+g.intn(5), hexTok([]byte(g.randomLine(o))))
 	}
+	serials := []uint32{1700000000, 0, 1, 4294967295}
+	for i := 0; i < nnorm; i++ {
+		kind := g.pick([]string{"cdb", "v1", "v2"})
+		serial := serials[g.intn(len(serials))]
+		t := c09types[g.intn(len(c09types))]
+		fmt.Fprintf(w, "norm %s %d %s\n", kind, serial, hexTok([]byte(g.c09line(t, serial))))
+	}
+	for i := 0; i < nprep; i++ {
+		kind := g.pick([]string{"v1", "v2"})
+		serial := serials[g.intn(len(serials))]
+		var toks []string
+		for _, l := range g.c09file(serial) {
+			toks = append(toks, hexTok([]byte(l)))
+		}
+		fmt.Fprintf(w, "prep %s %d %s\n", kind, serial, strings.Join(toks, ";"))
+	}
 }
+
+// ---------------------------------------------------------------------------------------------
+// runner
 
 func kvList(mr []dnsdata.MapRecord) string {
 	if len(mr) == 0 {
@@ -48,9 +370,33 @@ func kvList(mr []dnsdata.MapRecord) string {
 	return strings.Join(p, ",")
 }
 
+func sortedKVs(mr []dnsdata.MapRecord) string {
+	if len(mr) == 0 {
+		return "_"
+	}
+	var p []string
+	for _, m := range mr {
+		p = append(p, hexTok(m.Key)+"."+hexTok(m.Value))
+	}
+	sort.Strings(p)
+	return strings.Join(p, ",")
+}
+
+func c09compile(kind string, serial uint32, text []byte) (string, error) {
+	c := newCodec(kind, serial)
+	mr, err := dnsdata.Parse(bytes.NewReader(text), c, 1)
+	if err != nil {
+		return "", err
+	}
+	return sortedKVs(mr), nil
+}
+
 func c09run(line string) (string, string) {
 	f := strings.Fields(line)
 	switch f[0] {
+	case "isprint":
+		n := strings.Count(f[1], ",") + 1
+		return fmt.Sprintf("ranges:%d", n), "-"
 	case "conv":
 		var serial uint32
 		fmt.Sscan(f[2], &serial)
@@ -60,6 +406,93 @@ func c09run(line string) (string, string) {
 			return "err", "-"
 		}
 		return "ok:" + kvList(mr), "-"
+	case "norm":
+		// DecodeLn, MarshalText; DecodeLn + MarshalMap of the marshalled text; MarshalText again
+		var serial uint32
+		fmt.Sscan(f[2], &serial)
+		c := newCodec(f[1], serial)
+		r, err := c.DecodeLn(unhexTok(f[3]))
+		if err != nil {
+			return "err", "-"
+		}
+		kv1, err := r.MarshalMap()
+		if err != nil {
+			return "err-map", "-"
+		}
+		t1, err := r.MarshalText()
+		if err != nil {
+			return "err-text", "FAIL:marshaltext-error"
+		}
+		t1 = append([]byte{}, t1...)
+		c2 := newCodec(f[1], serial)
+		r2, err := c2.DecodeLn(append([]byte{}, t1...))
+		if err != nil {
+			return "text=" + hexTok(t1) + ";reparse-err", "FAIL:reparse-error"
+		}
+		kv2, err := r2.MarshalMap()
+		if err != nil {
+			return "text=" + hexTok(t1) + ";remap-err", "FAIL:remap-error"
+		}
+		t2, err := r2.MarshalText()
+		if err != nil {
+			return "text=" + hexTok(t1) + ";retext-err", "FAIL:retext-error"
+		}
+		verdict := "ok"
+		if kvList(kv1) != kvList(kv2) {
+			verdict = "FAIL:kvs-differ:" + kvList(kv1)
+		} else if !bytes.Equal(t1, t2) {
+			verdict = "FAIL:text-not-idempotent"
+		}
+		return "text=" + hexTok(t1) + ";kvs=" + kvList(kv2) + ";again=" + hexTok(t2), verdict
+	case "prep":
+		var serial uint32
+		fmt.Sscan(f[2], &serial)
+		var lines [][]byte
+		if len(f) > 3 {
+			for _, t := range strings.Split(f[3], ";") {
+				lines = append(lines, unhexTok(t))
+			}
+		}
+		orig := append(bytes.Join(lines, []byte("\n")), '\n')
+		var out bytes.Buffer
+		c := newCodec(f[1], serial)
+		perr := c.Preprocess(bytes.NewReader(orig), &out)
+		dumpOrig, oerr := c09compile(f[1], serial, orig)
+		if perr != nil {
+			if oerr == nil {
+				return "prep-err", "FAIL:preprocess-rejects-compilable-file"
+			}
+			return "prep-err", "-"
+		}
+		pre := append([]byte{}, out.Bytes()...)
+		var plain, points []string
+		for _, l := range bytes.Split(bytes.TrimSuffix(pre, []byte("\n")), []byte("\n")) {
+			if len(pre) == 0 {
+				break
+			}
+			if bytes.HasPrefix(l, []byte("!")) {
+				points = append(points, hexTok(l))
+			} else {
+				plain = append(plain, hexTok(l))
+			}
+		}
+		sort.Strings(points)
+		dumpPre, err := c09compile(f[1], serial, pre)
+		res := "lines=" + strings.Join(append(plain, points...), ";")
+		if err != nil {
+			if oerr != nil {
+				return res + ";db=err", "-"
+			}
+			return res + ";db=err", "FAIL:preprocessed-does-not-compile"
+		}
+		if oerr != nil {
+			return res + ";db=" + dumpPre, "FAIL:original-does-not-compile"
+		}
+		verdict := "ok"
+		if dumpOrig != dumpPre {
+			verdict = "FAIL:db-differs"
+		}
+		return res + ";db=" + dumpPre, verdict
 	}
 	return "bad-op", "-"
 }
